@@ -229,3 +229,83 @@ def allocfail(case, res):
         S.shutdown()
         return [name, "fail allocation", nth, "fired" if fired else "not reached"]
     sim_case(case, res, body)
+
+
+@scenario("allocfail-passwd")
+def allocfail_passwd(case, res):
+    """one authorised password change with allocation number n failing: the answer, the credentials the daemon accepts afterwards
+    and the file on disk must tell the same story (old XOR new, never neither, never both)"""
+    import crypt
+    from .scen_access import creds_case, token
+    prm = case["params"]
+    nth = prm.get("nth")
+    count = prm.get("count", 1)
+
+    def body(S, rng, creds, pool):
+        S.check_m = True
+        admins = sorted(u for u, d in creds.users.items() if d.get("admin") and not d.get("readonly"))
+        who = prm.get("who", "self")
+        target = "user0"
+        actor = target if who == "self" or not admins or admins[0] == target else admins[0]
+        old = creds.users[target]["password"]
+        new = "new-" + token(rng)
+        t = prm.get("transport", "raw")
+        a = S.connect("a", t)
+        if t == "ws":
+            S.handshake(a)
+        a.keep_log = True
+        S.request(a, "authenticate", {"user": actor, "password": creds.users[actor]["password"]})
+        S.settle()
+        if nth is not None:
+            S.alloc_faults = True
+            S.desync = True
+            S.strict_close = False
+            S.sim.failalloc(nth, count)
+        start = S.sim.stat()["allocs"]
+        p = S.request(a, "passwd", {"user": target, "password": new})
+        p.expect_override = "any"
+        S.settle()
+        st = S.sim.stat()
+        S.sim.failalloc(-1, 0)
+        if nth is None:
+            res.alloc_count = st["allocs"] - start
+        S.stats["faults_fired"] += 1 if st["alloc_failed"] else 0
+        ans = [m for m in a.msglog if isinstance(m, dict) and m.get("id") == p.idv and ("result" in m or "error" in m)]
+        said = "nothing" if not ans else "changed" if "result" in ans[0] else "refused"
+
+        def accepts(pw, tag):
+            v = S.connect("v" + tag, "raw")
+            v.keep_log = True
+            q = S.request(v, "authenticate", {"user": target, "password": pw})
+            q.expect_override = "any"
+            S.settle()
+            r = [m for m in v.msglog if isinstance(m, dict) and m.get("id") == q.idv]
+            S.end(v, "eof")
+            S.settle()
+            return bool(r and "result" in r[0])
+        ok_old, ok_new = accepts(old, "old"), accepts(new, "new")
+        S.sig("passwd-under-allocation-failure", said, ok_old, ok_new, t, who)
+        state = "neither" if not (ok_old or ok_new) else "both" if (ok_old and ok_new) else "old" if ok_old else "new"
+        want = {"changed": ("new",), "refused": ("old",), "nothing": ("old", "new")}[said]
+        if state not in want:
+            S.v("authz/answer-%s-but-daemon-accepts-%s" % (said, state), "passwd for %s by %s, allocation %r failing (x%d)" % (target, actor, nth, count))
+        # the file: loadable, and it holds the old or the new credential of the target
+        try:
+            with open(S.cred_path) as fh:
+                doc = json.load(fh)
+            h = doc["users"][target]["password"]
+            on_disk = "old" if crypt.crypt(old, h) == h else "new" if crypt.crypt(new, h) == h else "neither"
+        except (ValueError, KeyError, TypeError, OSError) as e:
+            on_disk = "unloadable:%s" % type(e).__name__
+        if on_disk not in ("old", "new"):
+            S.v("authfile/allocation-failure-leaves-%s" % on_disk.split(":")[0], "answer %s, daemon accepts %s, file %s; allocation %r failing (x%d)" % (said, state, on_disk, nth, count))
+        elif state in ("old", "new") and on_disk != state:
+            S.v("authfile/file-and-daemon-disagree", "daemon accepts %s, file holds %s (answer %s); allocation %r failing (x%d)" % (state, on_disk, said, nth, count))
+        S.end(a, "eof")     # under the fault "at most one answer" was all that could be demanded of this connection
+        S.settle()
+        probe(S, "")
+        st = S.close_all()
+        S.check_idle_baseline(st, heap=False)
+        S.shutdown()
+        return ["passwd", who, t, "alloc", nth, said, state, on_disk]
+    creds_case(case, res, body)
